@@ -49,7 +49,8 @@ def render(shape, fault, rnd):
             hit = fault["sec"] == sec and fault["t"] == t and (sec == "num" or fault["c"] == c) and (sec != "face" or fault["f"] == f)
             if hit and fault["kind"] == "omit":
                 continue
-            items.append("%s<%s>%s</%s> <!-- %s <! -->" % (indent, n, render_value(kd, token(sec, c, f, t), fault["kind"] if hit else None, rnd), n, n))
+            tok = token("num", 0, 0, 6) if (hit and fault["kind"] == "eqstep") else token(sec, c, f, t)      # eqstep: the value of the time step
+            items.append("%s<%s>%s</%s> <!-- %s <! -->" % (indent, n, render_value(kd, tok, fault["kind"] if hit else None, rnd), n, n))
         rnd.shuffle(items)
         return items
     lines = ['<?xml version="1.0"?>', "<numerical_parameters>"] + section("num", NUM, KIND_NUM, 0, 0, "    ") + ["</numerical_parameters>", "<cell_types>"]
@@ -150,7 +151,7 @@ def run(tier, seed, replay=None):
     chk.cov["evaluations"] = n
     chk.cov["distinct_nontrivial"] = len(cases)
     chk.cov["exhaustive"] = True
-    chk.cov["rule"] = "one case per (file shape with 1-3 cell types x 1-3 face types, tag, fault in {omitted, negative, zero, INF}) enumerated by TLC, rendered %d time(s) with random number formats and tag orders" % reps
+    chk.cov["rule"] = "one case per (file shape with 1-3 cell types x 1-3 face types, tag, fault in {omitted, negative, zero, INF; sampling period equal to the time step}) enumerated by TLC, rendered %d time(s) with random number formats and tag orders" % reps
     oc = {}
     for o in obs:
         oc[o["outcome"]] = oc.get(o["outcome"], 0) + 1
